@@ -116,6 +116,63 @@ Definition parse_float_text (s:list N) : ptext :=
   else if list_eqb lw [110; 97; 110]%N then PFloat S754_nan
   else parse_number neg s2.
 
+(* ---------- complex(str) (Objects/complexobject.c complex_from_string_inner): [blank] [(] <float> | <float>j | <float><signed float>j | <float><sign>j |
+   [sign]j [)] [blank]; PyOS_string_to_double reads the LONGEST prefix that is a real ---------- *)
+Fixpoint starts_ci (pre l:list N) : option (list N) :=
+  match pre, l with [], _ => Some l | a :: p, b :: r => if N.eqb a (lower b) then starts_ci p r else None | _ :: _, [] => None end.
+(* the longest prefix of s that is a real: the value and what is left; None when no prefix is *)
+Definition float_prefix (s:list N) : option (spec_float * list N) :=
+  let '(neg, r) := split_sign s in
+  match starts_ci [105; 110; 102; 105; 110; 105; 116; 121]%N r with Some rest => Some (S754_infinity neg, rest) | None =>
+  match starts_ci [105; 110; 102]%N r with Some rest => Some (S754_infinity neg, rest) | None =>
+  match starts_ci [110; 97; 110]%N r with Some rest => Some (S754_nan, rest) | None =>
+    let '(ip, r1) := take_digits r [] in
+    let '(fp, r2) := match r1 with c :: r' => if N.eqb c 46 then take_digits r' [] else ([], r1) | [] => ([], r1) end in
+    match ip ++ fp with
+    | [] => None
+    | ds =>
+        let mk (ex:Z) := let '(c, t) := strip10 (length ds) (int_of_digits ds 0) (ex - Z.of_nat (length fp)) in float_of_decimal neg c t in
+        match r2 with
+        | c :: r3 =>
+            if N.eqb (lower c) 101 then
+              let '(eneg, r4) := split_sign r3 in
+              let '(ed, r5) := take_digits r4 [] in
+              match ed with
+              | _ :: _ => Some (mk (if eneg then - int_of_digits ed 0 else int_of_digits ed 0), r5)
+              | [] => Some (mk 0, r2) end                (* "1e" / "1e+": the exponent is not part of the number *)
+            else Some (mk 0, r2)
+        | [] => Some (mk 0, []) end
+    end end end end.
+Inductive ctext := CComplex (re im:spec_float) | CBad | CUnmodelled.
+Definition is_j (c:N) : bool := N.eqb c 106 || N.eqb c 74.
+Definition parse_complex_text (s0:list N) : ctext :=
+  if existsb (fun c => (127 <? c)%N || N.eqb c 95 || ((c <? 32)%N && negb (is_space c))) s0 then CUnmodelled else
+  let s1 := lstrip s0 in
+  let '(paren, s2) := match s1 with c :: r => if N.eqb c 40 then (true, lstrip r) else (false, s1) | [] => (false, s1) end in
+  let finish (re im:spec_float) (rest:list N) : ctext :=
+    let r1 := lstrip rest in
+    let r2 := if paren then match r1 with c :: r => if N.eqb c 41 then Some (lstrip r) else None | [] => None end else Some r1 in
+    match r2 with Some [] => CComplex re im | _ => CBad end in
+  let zero := S754_zero false in let one (neg:bool) := S754_finite neg 4503599627370496 (-52) in
+  match float_prefix s2 with
+  | Some (z, r) =>
+      match r with
+      | c :: r' =>
+          if N.eqb c 43 || N.eqb c 45 then
+            match float_prefix r with
+            | Some (y, c2 :: r2) => if is_j c2 then finish z y r2 else CBad
+            | Some (_, []) => CBad
+            | None => match r' with c2 :: r2 => if is_j c2 then finish z (one (N.eqb c 45)) r2 else CBad | [] => CBad end
+            end
+          else if is_j c then finish zero z r'
+          else finish z zero r
+      | [] => finish z zero []
+      end
+  | None =>
+      let '(neg, r) := match s2 with c :: r' => if N.eqb c 43 then (false, r') else if N.eqb c 45 then (true, r') else (false, s2) | [] => (false, s2) end in
+      match r with c :: r' => if is_j c then finish zero (one neg) r' else CBad | [] => CBad end
+  end.
+
 (* ---------- what the printer prints reads back: by construction of the search ---------- *)
 Definition reads_back (x:spec_float) (r:option (Z * Z)) : Prop :=
   match r with Some (c, t) => 0 < c /\ c mod 10 <> 0 /\ SFcompare (float_of_decimal false c t) x = Some Eq | None => True end.
